@@ -280,6 +280,7 @@ class PVLEncoder(object):
         of *level*.
         """
         lines = list()
+        self._check_name(key)
 
         if isinstance(value, self.grpcls):
             agg_keywords = self.grammar.group_pref_keywords
@@ -306,6 +307,18 @@ class PVLEncoder(object):
 
         return self.newline.join(lines)
 
+    def _check_name(self, name: str):
+        """Raises a ValueError if *name*, once written, would not be read
+        as a Parameter Name or Block Name (it contains white space, is a
+        reserved keyword, a number, ...).
+        """
+        t = Token(str(name), grammar=self.grammar, decoder=self.decoder)
+        if not t.is_parameter_name():
+            raise ValueError(
+                f'"{name}" cannot be written as a Parameter Name or '
+                "Block Name."
+            )
+
     def encode_assignment(
         self, key: str, value, level: int = 0, key_len: int = None
     ) -> str:
@@ -319,6 +332,8 @@ class PVLEncoder(object):
         """
         if key_len is None:
             key_len = len(key)
+
+        self._check_name(key)
 
         s = ""
         s += "{} = ".format(key.ljust(key_len))
